@@ -174,12 +174,13 @@ func lemmaSum20(s string) {
 //@   requires upc != nil && upc.PacketConn != nil
 //@   modifies b
 //@   after `n, _, err := upc.PacketConn.ReadFrom(pkt)` assert[buffer] len(pkt) == 68 + len(b)
-//@   after `dhcpLen := int(ipHdr.payloadLength()) - udpHdrLen` assert[acc-len] n >= 20 && n == len(pkt)
-//@   after `dhcpLen := int(ipHdr.payloadLength()) - udpHdrLen` assert[acc-version] int(pkt[0])/16 == 4
-//@   after `dhcpLen := int(ipHdr.payloadLength()) - udpHdrLen` assert[acc-hlen] int(pkt[0])%16*4 >= 20 && int(pkt[0])%16*4 <= specWord(string(pkt), 2) && specWord(string(pkt), 2) <= n
-//@   after `dhcpLen := int(ipHdr.payloadLength()) - udpHdrLen` assert[acc-proto] int(pkt[9]) == 17
-//@   after `dhcpLen := int(ipHdr.payloadLength()) - udpHdrLen` assert[acc-udp] n - int(pkt[0])%16*4 >= 8
-//@   after `dhcpLen := int(ipHdr.payloadLength()) - udpHdrLen` assert[acc-payload] dhcpLen == specWord(string(pkt), 2) - int(pkt[0])%16*4 - 8 && len(buf.Buffer.data) == n - int(pkt[0])%16*4 - 8
-//@   after `dhcpLen := int(ipHdr.payloadLength()) - udpHdrLen` assert[acc-port] upc.boundAddr != nil ==> upc.boundAddr.Port == specWord(string(pkt), int(pkt[0])%16*4+2)
+//@   after `srcAddr := &net.UDPAddr{` assert[acc-len] n >= 20 && n == len(pkt)
+//@   after `srcAddr := &net.UDPAddr{` assert[acc-version] int(pkt[0])/16 == 4
+//@   after `srcAddr := &net.UDPAddr{` assert[acc-hlen] int(pkt[0])%16*4 >= 20 && int(pkt[0])%16*4 <= specWord(string(pkt), 2) && specWord(string(pkt), 2) <= n
+//@   after `srcAddr := &net.UDPAddr{` assert[acc-proto] int(pkt[9]) == 17
+//@   after `srcAddr := &net.UDPAddr{` assert[acc-udp] n - int(pkt[0])%16*4 >= 8
+//@   after `srcAddr := &net.UDPAddr{` assert[acc-unread] len(buf.Buffer.data) == n - int(pkt[0])%16*4 - 8
+//@   after `return copy(b, buf.Consume(dhcpLen)), srcAddr, nil` assert[acc-payload] dhcpLen == specWord(string(pkt), 2) - int(pkt[0])%16*4 - 8 && dhcpLen >= 0
+//@   after `srcAddr := &net.UDPAddr{` assert[acc-port] upc.boundAddr != nil ==> upc.boundAddr.Port == specWord(string(pkt), int(pkt[0])%16*4+2)
 //@   ensures[count] err == nil ==> 0 <= result0 && result0 <= len(b)
 //@   ensures[addr] err == nil ==> result1 != nil
